@@ -211,6 +211,8 @@ def _eval_stmt(fn, stmt, env, leaf_base, hooks=None):
             return fold(node["args"][0])           # ASMJIT_LIKELY / ASMJIT_UNLIKELY
         if node["k"] == "call" and node.get("callee") in HELPERS:
             return _call_helper(fn, node, fold, leaf_base, hooks)
+        if getattr(leaf_base, "wants_fn", False):
+            return leaf_base(text, node, fn)        # node ids belong to the function being evaluated (a helper's body, too)
         return leaf_base(text, node)
 
     def fold(e):
@@ -286,8 +288,9 @@ def _fold_decision(fn, stmt, did, value, leaf_factory):
     return value
 
 
-def _leaf_for(fn, sh, mask, name, idv):
-    def leaf(text, node):
+def _leaf_for(fn0, sh, mask, name, idv):
+    def leaf(text, node, fn=None):
+        fn = fn or fn0
         if node["k"] == "ref" and node.get("name") == "op_count":
             return len(sh)
         if node["k"] == "ref" and node.get("name") == "inst_id":
@@ -316,6 +319,7 @@ def _leaf_for(fn, sh, mask, name, idv):
                     if node.get("cn") in t:
                         return int(t[node["cn"]])
         raise Unknown()
+    leaf.wants_fn = True
     return leaf
 
 
@@ -339,19 +343,13 @@ def run_avx2(chk, rule="R-AVX2-FEATURE-DB-AGREE", floor=100):
     chk.need(comp is not None and fn.e(comp)["k"] == "s:CompoundStmt", "query_features: is_avx2 is not declared in a compound statement")
     did = decl[1]["did"]
     init = fn.e(fn.strip(decl[1]["init"])) if decl[1].get("init") is not None else None
-    helper = None
-    if init is not None and init["k"] == "call" and not isinstance(init.get("cv"), int):
-        # the decision lives in a unit-local helper: `bool is_avx2 = helper(inst_id, operands, op_count, reg_analysis)`
-        fh = chk.facts("asmjit/x86/x86instapi.cpp", funcs=r"asmjit::x86::[A-Za-z_0-9:]+$")
-        for g in cfg.load_functions(fh):
-            if g.name == init.get("callee") and g.file.endswith("x86instapi.cpp"):
-                helper = g
-        chk.need(helper is not None, "query_features: the helper that decides is_avx2 (%s) was not found" % init.get("callee"))
-    else:
-        chk.need(init is not None and isinstance(init.get("cv"), int), "query_features: is_avx2 has neither a constant initialiser nor a helper call")
+    # the initialiser may be a constant, an expression over the operands or a call of a unit-local helper: all are evaluated
+    fh = chk.facts("asmjit/x86/x86instapi.cpp", funcs=r"asmjit::x86::[A-Za-z_0-9:]+$")
+    HELPERS.clear()
+    HELPERS.update({g.name: g for g in cfg.load_functions(fh) if g.file.endswith("x86instapi.cpp") and g.name != fn.name})
+    chk.need(init is not None, "query_features: is_avx2 has no initialiser")
     after = [c for c in fn.e(comp)["ch"] if fn.line_of(c) > fn.line_of(decl[0])]
     stmts = [c for c in after if fn.e(c)["k"] == "s:IfStmt"]
-    chk.need(stmts or helper is not None, "query_features: no decision follows is_avx2")
 
     db = x86db.load_db(chk)
     by_name = {}
@@ -390,23 +388,12 @@ def run_avx2(chk, rule="R-AVX2-FEATURE-DB-AGREE", floor=100):
                 unk = False
                 computed = None
                 try:
-                    if helper is not None:
-                        # parameters are matched by name (inst_id, operands, op_count, reg_analysis): the leaf resolves them by name
-                        hfn = helper
-                        body = [i_ for i_, x_ in hfn.ex.items() if x_["k"] == "s:CompoundStmt" and i_ not in hfn.parent_map()]
-                        top = body[0] if body else min(i_ for i_, x_ in hfn.ex.items() if x_["k"] == "s:CompoundStmt")
-                        base = _leaf_for(hfn, sh, mask, name, idv)
-                        try:
-                            _eval_stmt(hfn, top, {}, base)
-                            raise Unknown()
-                        except _Ret as r_:
-                            computed = bool(r_.v)
-                    else:
-                        env = {did: int(bool(init["cv"]))}
-                        base = _leaf_for(fn, sh, mask, name, idv)
-                        for st in stmts:
-                            _eval_stmt(fn, st, env, base)
-                        computed = bool(env[did])
+                    env = {}
+                    base = _leaf_for(fn, sh, mask, name, idv)
+                    _eval_stmt(fn, decl[0], env, base)
+                    for st in stmts:
+                        _eval_stmt(fn, st, env, base)
+                    computed = bool(env[did])
                 except Unknown:
                     unk = True
                 n += 1
